@@ -10,6 +10,7 @@ from __future__ import annotations
 
 import ast
 import copy
+from .core import clone as _clone
 import importlib
 import os
 from concurrent.futures import ProcessPoolExecutor
@@ -28,7 +29,7 @@ def _mutations(fn: ast.AST):
     for idx, n in enumerate(nodes):
         # 1. delete a statement (replace by pass) - not defs, not returns of values used by callers' unpacking
         if isinstance(n, (ast.Expr, ast.Assign, ast.AugAssign, ast.Raise, ast.Delete, ast.Break, ast.Continue)) and n is not fn:
-            m = copy.deepcopy(fn)
+            m = _clone(fn)
             tgt = list(ast.walk(m))[idx]
             par = _parent_of(m, tgt)
             if par is None:
@@ -44,13 +45,13 @@ def _mutations(fn: ast.AST):
                 new = table.get(type(n.ops[0]))
                 if new is None:
                     continue
-                m = copy.deepcopy(fn)
+                m = _clone(fn)
                 tgt = list(ast.walk(m))[idx]
                 tgt.ops = [new()]
                 yield f"L{n.lineno} {label} `{_short(n)}`", m
         # 3. negate an if/while test
         if isinstance(n, (ast.If, ast.While)) and not (isinstance(n.test, ast.Constant)):
-            m = copy.deepcopy(fn)
+            m = _clone(fn)
             tgt = list(ast.walk(m))[idx]
             tgt.test = ast.UnaryOp(op=ast.Not(), operand=tgt.test)
             ast.fix_missing_locations(m)
@@ -58,7 +59,7 @@ def _mutations(fn: ast.AST):
         # 4. drop one operand of and/or
         if isinstance(n, ast.BoolOp) and len(n.values) >= 2:
             for k in range(len(n.values)):
-                m = copy.deepcopy(fn)
+                m = _clone(fn)
                 tgt = list(ast.walk(m))[idx]
                 vals = [v for i, v in enumerate(tgt.values) if i != k]
                 repl = vals[0] if len(vals) == 1 else ast.BoolOp(op=tgt.op, values=vals)
@@ -66,19 +67,19 @@ def _mutations(fn: ast.AST):
                 yield f"L{n.lineno} drop operand {k} of `{_short(n)}`", m
         # 5. `is not None` -> truthiness
         if isinstance(n, ast.Compare) and len(n.ops) == 1 and isinstance(n.ops[0], ast.IsNot) and isinstance(n.comparators[0], ast.Constant) and n.comparators[0].value is None:
-            m = copy.deepcopy(fn)
+            m = _clone(fn)
             tgt = list(ast.walk(m))[idx]
             _replace(m, tgt, tgt.left)
             yield f"L{n.lineno} truthiness instead of `{_short(n)}`", m
         # 6. remove an await (call result discarded un-awaited is a different bug class; skip) / drop a `not`
         if isinstance(n, ast.UnaryOp) and isinstance(n.op, ast.Not):
-            m = copy.deepcopy(fn)
+            m = _clone(fn)
             tgt = list(ast.walk(m))[idx]
             _replace(m, tgt, tgt.operand)
             yield f"L{n.lineno} drop `not` in `{_short(n)}`", m
         # 7. finally -> straight line
         if isinstance(n, ast.Try) and n.finalbody and not n.handlers:
-            m = copy.deepcopy(fn)
+            m = _clone(fn)
             tgt = list(ast.walk(m))[idx]
             par = _parent_of(m, tgt)
             for field in ("body", "orelse", "finalbody"):
@@ -89,7 +90,7 @@ def _mutations(fn: ast.AST):
                     yield f"L{n.lineno} try/finally flattened", m
         # 8. small integer constants +-1
         if isinstance(n, ast.Constant) and isinstance(n.value, int) and not isinstance(n.value, bool) and 0 <= n.value <= 64:
-            m = copy.deepcopy(fn)
+            m = _clone(fn)
             tgt = list(ast.walk(m))[idx]
             tgt.value = n.value + 1
             yield f"L{n.lineno} constant {n.value} -> {n.value + 1}", m
